@@ -365,7 +365,8 @@ func canonicalSess(idx int, peer int, seqBase uint32) []model.Op {
 
 func genC01(t *rapid.T) model.Case {
 	state := rapid.SampledFrom([]string{"none", "assoc", "assoc", "sess", "sess", "sess", "modded", "deleted", "released"}).Draw(t, "state")
-	conf := map[string]any{"uealloc": rapid.Bool().Draw(t, "uealloc"), "state": state}
+	conf := map[string]any{"uealloc": rapid.Bool().Draw(t, "uealloc"), "state": state,
+		"up4": rapid.IntRange(0, 2).Draw(t, "up4") == 0, "hb": rapid.IntRange(0, 2).Draw(t, "hb") == 0}
 	var ops []model.Op
 	hasSess := false
 	if state != "none" {
@@ -396,7 +397,7 @@ func genC01(t *rapid.T) model.Case {
 	var descs []any
 	for i := 0; i < nm; i++ {
 		seq := genSeq(t)
-		layer := rapid.SampledFrom([]string{"ie", "ie", "ie", "ie", "bytes", "garbage"}).Draw(t, "layer")
+		layer := rapid.SampledFrom([]string{"ie", "ie", "ie", "ie", "ie", "bytes", "garbage", "valid"}).Draw(t, "layer")
 		kind := rapid.SampledFrom(c01Kinds).Draw(t, "msgkind")
 		raw, patch := c01Template(t, kind, seq, hasSess)
 		var d []mutDesc
@@ -432,6 +433,9 @@ func genC01(t *rapid.T) model.Case {
 				copy(raw[k:], junk)
 				d = append(d, mutDesc{Op: "overwrite", Arg: fmt.Sprint(k)})
 			}
+		case "valid":
+			// the well-formed template itself: unusual but legal messages in unusual states
+			d = append(d, mutDesc{Op: "none"})
 		case "garbage":
 			raw = rapid.SliceOfN(rapid.Byte(), 0, 64).Draw(t, "garbage")
 			if len(raw) > 1 && rapid.Bool().Draw(t, "v1hdr") {
@@ -449,19 +453,27 @@ func genC01(t *rapid.T) model.Case {
 	return model.Case{Conf: conf, Ops: ops}
 }
 
-func c01Rig(uealloc bool) (*Rig, error) {
-	if uealloc {
-		return sharedRig("bess-uealloc", RigOpts{Mut: func(c *pfcpiface.Conf) {
+func c01Rig(uealloc, up4, hb bool) (*Rig, error) {
+	key := fmt.Sprintf("c01-up4=%v-alloc=%v-hb=%v", up4, uealloc, hb)
+	return sharedRig(key, RigOpts{UP4: up4, Mut: func(c *pfcpiface.Conf) {
+		if uealloc {
 			c.CPIface.EnableUeIPAlloc = true
 			c.CPIface.UEIPPool = "10.250.0.0/16"
-		}})
-	}
-	return sharedRig("bess-noalloc", RigOpts{})
+		}
+		if hb {
+			c.EnableHBTimer = true
+			c.HeartBeatInterval = "150ms"
+			c.RespTimeout = "400ms"
+			c.MaxReqRetries = 3
+		}
+	}})
 }
 
 func runC01(c model.Case, ev *Ev) error {
 	ue, _ := c.Conf["uealloc"].(bool)
-	r, err := c01Rig(ue)
+	up4, _ := c.Conf["up4"].(bool)
+	hb, _ := c.Conf["hb"].(bool)
+	r, err := c01Rig(ue, up4, hb)
 	if err != nil {
 		return fmt.Errorf("INFRA: %v", err)
 	}
